@@ -23,4 +23,6 @@ for d in seeded/C*; do
   done
   git -C /repo checkout -- .
 done
+# re-run every check on the restored tree so that evidence/ describes the unchanged tree again
+for i in 01 02 03 04 05 06 07 08 09 10 11 12 13 14 15 16 17 18 19 20 21 22 23 24; do timeout 1500 ./check C$i --tier quick >/dev/null 2>&1; done
 cat $out
